@@ -562,6 +562,9 @@ def monitor_case(ops, obs, which):
             else:
                 if r not in ("InsufficientSpace", "ReadOnly"):
                     V("C04", "bad-error", f"{ops[i].strip()} -> {r}", i)
+                if r == "ReadOnly" and not (fstate.get("ro_state") and not fstate["closed"]) and fstate["mode"] in (None, "mut", "copy"):
+                    for p_ in ("C04", "C03"):
+                        V(p_, "read-only-error-on-writable", f"{ops[i].strip()} -> ReadOnly on an arena that was opened writable ({fstate['mode'] or 'created'})", i)
                 # allocations succeed exactly when they fit: a request the fresh space can hold must not be refused
                 if r == "InsufficientSpace" and al <= cp and not (fstate.get("ro_state") and not fstate["closed"]):
                     try:
